@@ -1,6 +1,7 @@
 import NopModel.Generated
 import NopModel.Wire
 import NopModel.SipHash
+import NopModel.Codec
 /-! Proof obligations tying the model's constants to what /repo says *now*: `Generated.lean`
 is rewritten from the headers and docs/format.md on every run, and these theorems are
 re-checked. Built as a separate target so that a changed constant breaks exactly the
@@ -43,5 +44,38 @@ theorem gen_keys :
 theorem gen_misc :
     Generated.sizeofSizeType = 8 ∧ Generated.emptyVariantIndex = -1 ∧ Generated.emptyHandleReference = -1 := by
   decide
+
+/-- the 256-entry `Match` table of a model type -/
+def matchTable (t : Ty) : List Bool := (List.range 256).map (fun b => matchP t (UInt8.ofNat b))
+
+/-- **`Match` of the real encodings, executed on all 256 prefix bytes, is the model's `matchP`**:
+the eight integer kinds, bool, float, double, string, integral and non-integral vectors and
+arrays, map, tuple, pair, Optional (of an integer and of a string) and Variant. With
+`C04_int_classes` this ties the documented integer-class rule to the source exhaustively, with
+no sampling. -/
+theorem gen_match_tables :
+    Generated.matchTables =
+      IntKind.all.map (fun k => (k.name, matchTable (.int k .plain))) ++
+      [("bool", matchTable .bool), ("f32", matchTable (.float false)), ("f64", matchTable (.float true)),
+       ("string", matchTable (.str 0 1)),
+       ("vector_u8", matchTable (.seq .vector (.int .u8 .plain))), ("vector_string", matchTable (.seq .vector (.str 0 1))),
+       ("array_i16_2", matchTable (.seq (.array 2) (.int .i16 .plain))), ("array_string_2", matchTable (.seq (.array 2) (.str 0 1))),
+       ("map", matchTable (.map true (.int .u8 .plain) (.str 0 1))),
+       ("tuple", matchTable (.prod .tuple [.int .u8 .plain, .str 0 1])),
+       ("pair", matchTable (.prod .pair [.int .u8 .plain, .str 0 1])),
+       ("optional_u16", matchTable (.opt (.int .u16 .plain))), ("optional_string", matchTable (.opt (.str 0 1))),
+       ("variant", matchTable (.variant [.int .i32 .plain, .str 0 1]))] := by
+  decide +kernel
+
+/-- the model's `encInt` emits prefix `r.2.2.1` and `r.2.2.2` bytes for value `r.2.1` of kind `r.1` -/
+def pointOk (r : String × Int × Nat × Nat) : Bool :=
+  match IntKind.ofName? r.1 with
+  | some k => (encInt k r.2.1).head? == some (UInt8.ofNat r.2.2.1) && (encInt k r.2.1).length == r.2.2.2
+  | none => false
+
+/-- **The class and the size the real integer encoders choose at every class boundary** (and
+one step on either side, for each of the eight kinds) are the model's `encInt` -/
+theorem gen_prefix_points : Generated.prefixPoints.all pointOk = true := by
+  decide +kernel
 
 end Nop
